@@ -149,6 +149,21 @@ func genC08(r *h.Rng, tier string, idx int) *h.Plan {
 				// the item expires while nobody looks and the location is reloaded
 				p.Ops = append(p.Ops, h.Op{K: "reload"})
 			}
+			if len(alsoExpiring) > 0 && r.P(2, 3) {
+				// one expired item is looked at, nothing else is; then another item
+				// that expired with it is written anew (no expiry): it stays
+				var other string
+				for k2 := range ids {
+					if alsoExpiring[k2] && k2 != k {
+						other = ids[k2]
+					}
+				}
+				if other != "" {
+					p.Ops = append(p.Ops, h.Op{K: "getfact", Loc: "L", Id: id, Q: true})
+					p.Ops = append(p.Ops, c08Node(r, other, 0, nil, false)...)
+					break
+				}
+			}
 			switch r.Intn(3) {
 			case 0:
 				p.Ops = append(p.Ops, h.Op{K: "getfact", Loc: "L", Id: id})
